@@ -42,6 +42,7 @@ Proof. repeat split; reflexivity. Qed.
 (** 32 letters drawn from A-Z; the elements / mixin / render methods the model covers. *)
 Example C13_pin_constants :
   placeholder_random_chars = 32%N /\
+  sve_priority = 6%N /\      (* below marko's code span / inline HTML / autolink / escape (7): they win an overlap *)
   forallb is_upper placeholder_alphabet = true /\
   recipe_grid_elements = ["ScaledValueExpression"; "Document"; "CodeBlock"; "FencedCode"]%string /\
   recipe_grid_renderer_mixins = ["RecipeGridRendererMixin"]%string /\
